@@ -5,6 +5,7 @@ import (
 	"encoding/json"
 	"fmt"
 	"math"
+	"math/big"
 	"strconv"
 	"strings"
 
@@ -608,30 +609,62 @@ func (exec *Executor) executeDecimalMethod(
 		}
 	}
 
-	// Round to the scale.
-	ratio := math.Pow10(scale)
-	rounded := math.Round(num*ratio) / ratio
-
-	// Count the digits before the decimal point.
-	numStr := strconv.FormatFloat(rounded, 'f', -1, 64)
-	count := 0
-	for _, ch := range numStr {
-		if ch == '.' {
-			break
-		}
-		if '1' <= ch && ch <= '9' || (ch == '0' && count > 0) {
-			count++
-		}
-	}
-
-	// Make sure it's got no more than precision digits.
-	if count > 0 && count > precision-scale {
+	// Round to the scale and make sure the result has no more than precision
+	// digits. Use exact decimal arithmetic: math.Pow10(scale) is 0 or +Inf
+	// for large scales, which used to produce NaN.
+	rounded, ok := roundDecimal(num, precision, scale)
+	if !ok {
 		return 0, fmt.Errorf(
 			`%w: argument "%v" of jsonpath item method %v is invalid for type %v`,
 			ErrVerbose, value, op, "numeric",
 		)
 	}
 	return rounded, nil
+}
+
+// roundDecimal rounds num half away from zero to scale decimal places and
+// returns false if the result needs more than precision digits, i.e., if its
+// absolute value is not less than 10^(precision-scale).
+func roundDecimal(num float64, precision, scale int) (float64, bool) {
+	val, ok := new(big.Rat).SetString(strconv.FormatFloat(num, 'f', -1, 64))
+	if !ok {
+		return 0, false
+	}
+
+	// shifted = val * 10^scale.
+	pow := new(big.Rat).SetInt(new(big.Int).Exp(
+		big.NewInt(10), big.NewInt(int64(max(scale, -scale))), nil, //nolint:mnd
+	))
+	shifted := new(big.Rat)
+	if scale >= 0 {
+		shifted.Mul(val, pow)
+	} else {
+		shifted.Quo(val, pow)
+	}
+
+	// digits = shifted rounded half away from zero: trunc(shifted ± 1/2).
+	half := big.NewRat(int64(shifted.Sign()), 2) //nolint:mnd
+	shifted.Add(shifted, half)
+	digits := new(big.Int).Quo(shifted.Num(), shifted.Denom())
+
+	// No more than precision digits.
+	limit := new(big.Int).Exp(big.NewInt(10), big.NewInt(int64(precision)), nil) //nolint:mnd
+	if new(big.Int).Abs(digits).Cmp(limit) >= 0 {
+		return 0, false
+	}
+
+	// result = digits / 10^scale.
+	res := new(big.Rat).SetInt(digits)
+	if scale >= 0 {
+		res.Quo(res, pow)
+	} else {
+		res.Mul(res, pow)
+	}
+	rounded, _ := res.Float64()
+	if math.IsInf(rounded, 0) {
+		return 0, false
+	}
+	return rounded, true
 }
 
 // intCallback defines a callback to carry out an operation on an int64.
